@@ -43,6 +43,9 @@ CATALOGUE = [
     ("negative-shift", ["{I}«.word »1 << ngsh", "ngsh = 0 - 3"], "arithmetic-error", "error", ("T",)),
     ("branch-too-far", ["{I}«br . + 1000"], "branch-out-of-bounds", "error", ("S",)),
     ("sob-forward", ["{I}«sob r1, . + 4"], "branch-out-of-bounds", "error", ("S",)),
+    # the first displacement that does not fit: 128 words forward of the following word
+    ("branch-one-word-too-far", ["{I}«bne . + 402"], "branch-out-of-bounds", "error", ("S",)),
+    ("branch-one-word-too-far-decimal", ["{I}«br . + 258."], "branch-out-of-bounds", "error", ("S",)),
     ("odd-branch", ["{I}«br . + 3"], "odd-branch", "error", ("S",)),
     ("byte-out-of-range", ["{I}«.byte 1, »400"], "value-out-of-bounds", "error", ("T",)),
     ("word-out-of-range", ["{I}«.word »200000"], "value-out-of-bounds", "error", ("T",)),
